@@ -84,6 +84,16 @@ def Z1():
     return C("Z1", workers=2, second_pool=True, zipped=True, calls=[("imap", "list", 2, 1), ("imap", "list", 2, 1)])
 
 
+# (A driver X1 -- call 1 with all results taken but its generator neither exhausted nor closed while call 2 runs -- was
+# tried and dropped: two generators of one pool alive at once are overlapping calls, not a "sequence of fully consumed
+# calls"; the pool keeps its per-call state on the pool object and does not claim to support that.  DESIGN.md 10.4.)
+
+
+def Q1():
+    # the input is a collections.deque: a finite Sequence that supports neither slicing nor random access in O(1)
+    return C("Q1", workers=2, calls=[("imap", "deque", 3, 2), ("imap_unordered", "deque", 2, 1)])
+
+
 def J5():
     # P5 on a pool with a join_timeout, the timer of a timed join expiring early (environment deviation): a retired worker
     # that has not exited yet when the replace thread stops waiting for it must still get a successor
